@@ -160,7 +160,7 @@ class _ExpressionMixin(QuadraticViewsMixin):
                     and self.offset == other.offset
                     and self.linear == other.linear
                     and self.adj == other.adj)
-        except AttributeError:
+        except (AttributeError, ValueError):
             return False
 
     @abc.abstractmethod
